@@ -41,7 +41,7 @@ func corpus() []*Graph {
 		// same type name, different UIDs
 		{Users: []User{{Name: "T", UID: "pkg1.T", Att: obj(fl("a", p("int")))}, {Name: "T", UID: "pkg2.T", Att: obj(fl("a", p("string")))}}, Root: obj(fl("p", ref(0)), fl("q", ref(1)))},
 		// result type with views
-		{Users: []User{{Name: "R", Result: true, Identifier: "application/vnd.r", ContentType: "application/json", Att: obj(fl("id", p("int")), fl("name", p("string"))),
+		{Users: []User{{Name: "R", Result: true, Identifier: "application/vnd.r", Att: obj(fl("id", p("int")), fl("name", p("string"))),
 			Views: []View{{"default", []string{"id", "name"}}, {"tiny", []string{"id"}}}}}, Root: ref(0)},
 		{Root: &Att{T: &Type{K: "map", Key: p("string"), Elem: arr(obj(fl("k", p("any"))))}}},
 	}
@@ -59,6 +59,23 @@ func equalWitnesses() [][2]*Graph {
 		{{Root: obj(fl("a", arr(obj(fl("b", p("int"))))), fl("c", p("int")))}, {Root: obj(fl("a", arr(obj(fl("b", p("int")), fl("c", p("int"))))))}},
 		// empty inner object
 		{{Root: obj(fl("a", obj()), fl("c", p("string")))}, {Root: obj(fl("a", obj(fl("c", p("string")))))}},
+		// the same with unions: U{a: N{}, x: int} vs U{a: N{x: int}}
+		{{Root: union("U", fl("a", union("N")), fl("x", p("int")))}, {Root: union("U", fl("a", union("N", fl("x", p("int")))))}},
+		// a union at the end of an object inside a union
+		{{Root: union("U", fl("a", obj(fl("k", union("N", fl("p", p("int")))))), fl("x", p("int")))},
+			{Root: union("U", fl("a", obj(fl("k", union("N", fl("p", p("int")), fl("x", p("int")))))))}},
+	}
+}
+
+// names that contain the delimiters of the hash format (outside the class cls)
+func delimiterWitnesses() [][2]*Graph {
+	return [][2]*Graph{
+		// {"a/int-b": int} vs {a: int, b: int}
+		{{Root: obj(fl("a/int-b", p("int")))}, {Root: obj(fl("a", p("int")), fl("b", p("int")))}},
+		// U{"x_|_int_*_y": int} vs U{x: int, y: int}
+		{{Root: union("U", fl("x_|_int_*_y", p("int")))}, {Root: union("U", fl("x", p("int")), fl("y", p("int")))}},
+		// {u: union "A-b/int" {}} vs {u: union "A" {}, b: int}... the union name swallows a sibling
+		{{Root: obj(fl("u", union("A-z/int")))}, {Root: obj(fl("u", union("A")), fl("z", p("int")))}},
 	}
 }
 
@@ -79,6 +96,19 @@ func viewWitnesses() []*Graph {
 			Views: []View{{"default", []string{"id", "name"}}, {"tiny", []string{"id"}}}}}, Root: ref(0)},
 		{Users: []User{{Name: "R", Result: true, Identifier: "application/vnd.r2", Att: obj(fl("id", p("int"))),
 			Views: []View{{"default", []string{"id"}}}}}, Root: obj(fl("items", arr(ref(0))))},
+	}
+}
+
+func lossyWitnesses() []*Graph {
+	docs := p("string")
+	docs.Docs = "http://docs/a"
+	docs2 := arr(p("int"))
+	docs2.Docs = "http://docs/b"
+	return []*Graph{
+		{Root: obj(fl("a", docs), fl("b", p("int")))},
+		{Users: []User{{Name: "T", Att: obj(fl("x", docs2))}}, Root: ref(0)},
+		{Users: []User{{Name: "R", Result: true, Identifier: "application/vnd.r", ContentType: "application/json", Att: obj(fl("id", p("int")))}}, Root: ref(0)},
+		{Users: []User{{Name: "R", Result: true, Identifier: "application/vnd.r3", ContentType: "text/plain", Att: obj(fl("id", p("int")))}}, Root: arr(ref(0))},
 	}
 }
 
@@ -120,7 +150,12 @@ func (r *run) streams(tier string) {
 		}
 		r.distinct.Add(g1.String() + "~" + g2.String())
 		r.checkPair(g1, g2, "pairs", what, 0)
-		r.checkPair(g1, g1.clone(), "pairs", "same description", 1)
+		r.checkPair(g1, g1.clone(), "pairs", "same description", 2)
+		if made%3 == 0 {
+			g3, what3 := g.sameUnderEqual(g1)
+			r.checkPair(g1, g3, "pairs", what3, 1)
+			r.res.Count("equal_preserving=" + what3)
+		}
 		r.res.Count("neighbour=" + what)
 		made++
 	}
@@ -133,11 +168,21 @@ func (r *run) streams(tier string) {
 	for _, w := range equalWitnesses() {
 		r.checkPair(w[0], w[1], "witness-equal", "attribute list of an inner object runs into the outer one", 0)
 	}
+	for _, w := range delimiterWitnesses() {
+		r.checkPair(w[0], w[1], "witness-equal", "a name contains a delimiter of the hash format", 0)
+	}
 	for _, w := range recursiveWitnesses() {
 		r.checkPair(w[0], w[1], "witness-equal", "recursive reference hashes as the prefix built so far", 0)
 	}
 	for _, g := range viewWitnesses() {
 		r.checkGraph(g, "witness-views", true)
+	}
+	for _, g := range lossyWitnesses() {
+		r.checkGraph(g, "witness-lossy", false)
+	}
+	for i := 0; i < nDag/4; i++ {
+		g := &gen{r: r.rng, cfg: genCfg{maxDepth: 3, maxUsers: 2, maxFields: 3, lossy: true}}
+		r.checkGraph(g.graph(), "witness-lossy", false)
 	}
 }
 
@@ -159,10 +204,10 @@ func (r *run) dag(i int) {
 		{Name: "r", Attribute: b.root},
 	}}
 	in := Input{Stream: "shared-object", Graph: gr, Note: fmt.Sprintf("root = {p: O, q: [O], r: graph} with O the last object of the graph (#%d)", i)}
-	r.inputs = append(r.inputs, in)
+	r.addInput(in)
 	hs := r.stable(root.Type, in)
-	r.hashCase(&built{root: root}, hs, in)
+	r.graphCase(&built{root: root}, hs, nil, in)
 	c := expr.Dup(root.Type)
-	r.sameHashes("copy-changes-hash", "Dup(t) vs t (shared object)", hs, hashAll(c), in)
+	r.sameHashes("copy-changes-hash/shared-object", "Dup(t) vs t (one Object shared by two attributes)", hs, hashAll(c), in)
 	r.res.Count("shared_object_graphs")
 }
